@@ -16,12 +16,19 @@ RULE = ('2-40 rows with distinct positive wavelengths (linear / log / random spa
         'through ArraySpectrum, ObservedSpectrum (text), TaurexSpectrum (HDF5) and taurex.util.hdf5.'
         'taurex_hdf5_to_observation (the same HDF5 file); a random native model is binned to the observation; holder '
         'stream: one Optimizer given 1-4 observations in turn (constructor, then set_observed; same / different row '
-        'counts, None in between, all four sources), its chisq_trans judged after every step. distinct non-trivial = distinct (source, columns, spacing, permutation kind, number of rows) '
+        'counts, None in between, all four sources), its chisq_trans judged after every step; program stream: taurex.taurex.main '
+        'run in process on a par file ([Observation] text file / TauREx-HDF5 file / taurex_spectrum = self, [Instrument] '
+        'snr / file / absent, [Binning] absent / native / observed / manual accurate or not, four grid keywords) with -o, the '
+        'Observed/* and Output/Spectra/binned_* datasets of the output judged wherever the program binds its output to the '
+        'observation. distinct non-trivial = distinct (source, columns, spacing, permutation kind, number of rows) '
         'with non-uniform errors/widths')
 ASSUMPTIONS = ['argsort = stable insertion sort by key (distinct wavelengths)',
                'np.loadtxt / np.savetxt(%.17g) and h5py round-trip float64 exactly (container I/O is external: files are '
                'really written and really read by the repo loaders)',
                'np.searchsorted as in C05; rounding not modelled: rel 1e-12 on loaded quantities, 1e-10 on binned',
+               'program stream: ConfigObj parsing of the par file, the forward model and the instrument are not modelled: the '
+               'native spectrum and the instrument result (Output/Spectra/native_*, instrument_* of the output file) are '
+               'inputs of Observation.Program; the content of a manual [Binning] grid is not judged',
                'source tie: the numpy primitives are the definitions of lean/TaurexModel/Gen/Prelude.lean (element-wise ops with 1-D broadcasting, slices, searchsorted = count, stable argsort, masks, np.where, take); the list dialect of the translator (harness/translate_list.py) is part of the trusted base; for the translated file loaders the content of the file is an input (the four HDF5 datasets as optional arrays, absent = KeyError; the array np.loadtxt returns)']
 
 REL = 1e-12
@@ -494,6 +501,325 @@ def _eval_holder(ctx, c, tmp):
             return
 
 
+# ----------------------------------------------------------------------------- program stream: `taurex -i par -o out` as the holder
+# The other object that holds an observation together with a binner created from it is the command-line program
+# (taurex/taurex.py:main): `[Observation]` (a text / TauREx-HDF5 file, or `taurex_spectrum = self` = the forward model seen
+# through the `[Instrument]`), `[Binning]` (absent / native / observed / manual), `[Instrument]` (snr / file / absent).  It
+# writes the observation (`Observed/*`) next to the forward model binned with the binner it holds (`Output/Spectra/binned_*`).
+# Wherever the program binds the output to the observation (self with whatever [Binning]; a file with no [Binning] section or
+# bin_type = observed) the binned model must sit on exactly the observation's centres and widths, element by element:
+# judged against Observation.Program (TaurexModel/ObsHolder.lean, theorems program_binner_of_observation / program_aligned).
+_PFX = {}
+PROG_MODEL = """[Global]
+[Chemistry]
+chemistry_type = taurex
+fill_gases = H2, He
+ratio = 0.17
+    [[H2O]]
+    gas_type = constant
+    mix_ratio = %(mix)r
+[Temperature]
+profile_type = isothermal
+T = %(T)r
+[Pressure]
+profile_type = Simple
+atm_min_pressure = 1e-2
+atm_max_pressure = 1e6
+nlayers = 4
+[Planet]
+planet_type = Simple
+planet_mass = 1.0
+planet_radius = 1.0
+[Star]
+star_type = blackbody
+[Model]
+model_type = transmission
+    [[Absorption]]
+"""
+# (observation, instrument, binning) routes of one quota cycle; J = the program binds its output to the observation (judged),
+# U = it does not (declared / native grid, or no observation: recorded), R = the unchanged program stops (malformed stream)
+PROG_ROUTES = [
+    ('self', 'file', 'absent', 'J'), ('self', 'file', 'manual-accurate', 'J'), ('self', 'snr', 'manual-accurate', 'J'),
+    ('text', 'none', 'absent', 'J'), ('self', 'file', 'native', 'J'), ('hdf5', 'none', 'observed', 'J'),
+    ('self', 'snr', 'manual-simple', 'J'), ('text', 'file', 'observed', 'J'), ('self', 'file', 'manual-simple', 'J'),
+    ('hdf5', 'snr', 'absent', 'J'), ('text', 'file', 'manual-accurate', 'U'), ('hdf5', 'none', 'native', 'U'),
+    ('none', 'snr', 'manual-simple', 'U'), ('self', 'none', 'absent', 'R'), ('self', 'snr', 'absent', 'R'),
+    ('self', 'file', 'observed', 'R'), ('none', 'none', 'observed', 'R'), ('self', 'file', 'absent', 'J'),
+]
+PROG_BIN_CODE = {'absent': 0, 'native': 1, 'observed': 2, 'manual-accurate': 3, 'manual-simple': 3}
+
+
+def program_fixtures():
+    if _PFX:
+        return _PFX
+    from taurex.opacity.interpolateopacity import InterpolatingOpacity
+    from taurex.cache import OpacityCache
+    wn_native = np.linspace(380.0, 30000.0, 360)
+    tg = np.array([200.0, 1000.0, 3000.0])
+    pg = np.array([1e-3, 1e2, 1e8])
+    base = 1e-22 * (1.5 + np.sin(wn_native / 700.0) + 0.5 * np.cos(wn_native / 90.0))
+    tab = np.array([0.7, 1.0, 1.6])[None, :, None] * np.ones((3, 1, 1)) * base[None, None, :]
+
+    class MemOpacity(InterpolatingOpacity):
+        def __init__(self):
+            super().__init__('MemOpacity', interpolation_mode='linear')
+
+        moleculeName = 'H2O'
+        xsecGrid = property(lambda self: tab)
+        wavenumberGrid = property(lambda self: wn_native)
+        temperatureGrid = property(lambda self: tg)
+        pressureGrid = property(lambda self: pg)
+
+    OpacityCache().clear_cache()
+    OpacityCache().add_opacity(MemOpacity())
+    _PFX['native'] = wn_native
+    return _PFX
+
+
+def gen_prog_rows(rng):
+    """rows (wavelength, value, error, width) whose bins lie inside the native grid of the program fixture (0.45-22 um)"""
+    while True:
+        n = int(rng.integers(2, 26))
+        lo = float(rng.uniform(0.55, 3.0))
+        hi = float(rng.uniform(lo * 1.4, 17.0))
+        style = int(rng.integers(0, 3))
+        if style == 0:
+            wl = np.linspace(lo, hi, n)
+        elif style == 1:
+            wl = np.geomspace(lo, hi, n)
+        else:
+            wl = np.sort(rng.uniform(lo, hi, n))
+        d = np.diff(wl)
+        if np.min(d) < 1e-3 * lo:
+            continue
+        near = np.minimum(np.concatenate([[d[0]], d]), np.concatenate([d, [d[-1]]]))
+        bw = near * (rng.uniform(0.2, 0.95, n) if rng.random() < 0.6 else 10 ** rng.uniform(-1, 0.4, n))
+        v = 10 ** rng.uniform(-3, -1) * (1 + 0.2 * rng.standard_normal(n))
+        e = 10 ** rng.uniform(-6, -3, size=n)
+        rows = np.column_stack([wl, v, e, bw])
+        ok = True
+        for ncol in (3, 4):
+            ed = wn_edges(rows[:, :ncol], ncol)
+            if ed is None or ed.min() < 480.0 or ed.max() > 27000.0:
+                ok = False
+        if ok:
+            return rows[rng.permutation(n)]
+
+
+def gen_program_case(rng, k):
+    obs, inst, binning, cls = PROG_ROUTES[k % len(PROG_ROUTES)]
+    c = dict(stream='program', obs=obs, inst=inst, binning=binning, route_class=cls,
+             T=float(np.round(rng.uniform(600.0, 2000.0), 1)), mix=float(10 ** np.round(rng.uniform(-5, -3), 2)))
+    if obs in ('text', 'hdf5'):
+        rows = gen_prog_rows(rng)
+        c['obs_ncol'] = 4 if (obs == 'hdf5' or rng.random() < 0.6) else 3
+        c['obs_rows'] = rows[:, :c['obs_ncol']]
+    if inst == 'file':
+        rows = gen_prog_rows(rng)
+        c['inst_rows'] = rows[:, [0, 2, 3]]                 # (wavelength, noise, wavelength width), rows in any order
+    elif inst == 'snr':
+        c['snr'] = float(np.round(rng.uniform(5, 50), 1))
+    if inst != 'none' and rng.random() < 0.3:
+        c['num_observations'] = int(rng.integers(2, 6))
+    if binning.startswith('manual'):
+        start = float(np.round(rng.uniform(0.6, 2.0), 3))
+        end = float(np.round(rng.uniform(6.0, 16.0), 3))
+        kind = int(rng.integers(0, 4))
+        if kind == 0:
+            c['manual'] = 'wavelength_res = %r, %r, %d' % (start, end, int(rng.integers(8, 40)))
+        elif kind == 1:
+            c['manual'] = 'wavenumber_grid = %r, %r, %d' % (10000 / end, 10000 / start, int(rng.integers(5, 40)))
+        elif kind == 2:
+            c['manual'] = 'log_wavelength_grid = %r, %r, %d' % (start, end, int(rng.integers(5, 40)))
+        else:
+            c['manual'] = 'wavelength_grid = %r, %r, %d' % (start, end, int(rng.integers(5, 40)))
+    return c
+
+
+def write_obs_file(source, rows, tmp, tag):
+    """the observation file a par file names, in the layout of `build`; returns (path, rows as stored, kind for the model)"""
+    rows = np.asarray(rows, float)
+    if source == 'text':
+        fn = os.path.join(tmp, 'pobs_%s.dat' % tag)
+        np.savetxt(fn, rows, fmt='%.17g')
+        return fn, rows, 0 if rows.shape[1] == 3 else 1
+    import h5py
+    fn = os.path.join(tmp, 'pobs_%s.h5' % tag)
+    wl, v, e, bw = rows.T
+    wn = 10000 / wl
+    wnw = 10000 * bw / wl ** 2
+    with h5py.File(fn, 'w') as f:
+        g = f.create_group('Output').create_group('Spectra')
+        g['instrument_wngrid'] = wn
+        g['instrument_spectrum'] = v
+        g['instrument_noise'] = e
+        g['instrument_wnwidth'] = wnw
+    return fn, np.column_stack([wn, v, e, wnw]), 2
+
+
+def eval_program_case(ctx, c, tmp=None):
+    own = tmp is None
+    if own:
+        tmp = tempfile.mkdtemp(prefix='verif_c17_')
+    try:
+        _eval_program(ctx, c, tmp)
+    finally:
+        if own:
+            shutil.rmtree(tmp, ignore_errors=True)
+
+
+def _eval_program(ctx, c, tmp):
+    import io
+    import sys
+    import contextlib
+    import logging
+    import h5py
+    from taurex.log.logger import root_logger
+    import taurex.taurex as T
+    root_logger.setLevel(logging.CRITICAL + 1)
+    program_fixtures()
+    obs, inst, binning = c['obs'], c['inst'], c['binning']
+    route = '%s/%s/%s' % (obs, inst, binning)
+    cls = c.get('route_class')
+    if cls is None:
+        cls = 'J' if (obs == 'self' or (obs != 'none' and binning in ('absent', 'observed'))) else 'U'
+    full = dict(c)
+    text = PROG_MODEL % dict(T=float(c['T']), mix=float(c['mix']))
+    if binning == 'native':
+        text += '[Binning]\nbin_type = native\n'
+    elif binning == 'observed':
+        text += '[Binning]\nbin_type = observed\n'
+    elif binning.startswith('manual'):
+        text += '[Binning]\nbin_type = manual\n%s%s\n' % ('accurate = True\n' if binning == 'manual-accurate' else '',
+                                                         c['manual'])
+    obs_tok, obs_file, obs_source = '0', None, None
+    if obs == 'self':
+        text += '[Observation]\ntaurex_spectrum = self\n'
+        obs_tok = '2'
+    elif obs in ('text', 'hdf5'):
+        obs_file, stored, kind = write_obs_file(obs, c['obs_rows'], tmp, 'p')
+        text += '[Observation]\n%s = %s\n' % ('observed_spectrum' if obs == 'text' else 'taurex_spectrum', obs_file)
+        obs_tok = '1 ' + C.N(kind) + ' ' + C.LL(stored.tolist())
+    if inst == 'file':
+        fn = os.path.join(tmp, 'pinst.dat')
+        np.savetxt(fn, np.asarray(c['inst_rows'], float), fmt='%.17g')
+        text += '[Instrument]\ninstrument = file\nfilename = %s\n' % fn
+    elif inst == 'snr':
+        text += '[Instrument]\ninstrument = snr\nSNR = %r\n' % float(c['snr'])
+    if inst != 'none' and c.get('num_observations'):
+        text += 'num_observations = %d\n' % int(c['num_observations'])
+    par = os.path.join(tmp, 'prog.par')
+    out = os.path.join(tmp, 'prog_out.h5')
+    if os.path.exists(out):
+        os.remove(out)
+    with open(par, 'w') as f:
+        f.write(text)
+    ctx.case(key=('program', route, c.get('obs_ncol'), (c.get('manual') or '').split(' ')[0]),
+             sample=dict(stream='program', route=route, manual=c.get('manual')), bucket='program:route:' + route)
+    argv = sys.argv
+    sys.argv = ['taurex', '-i', par, '-o', out]
+    err = None
+    try:
+        with contextlib.redirect_stdout(io.StringIO()), contextlib.redirect_stderr(io.StringIO()):
+            T.main()
+    except KeyboardInterrupt:
+        raise
+    except BaseException as e:      # noqa  (main() also leaves through quit())
+        err = e
+    finally:
+        sys.argv = argv
+    if err is not None:
+        if cls == 'R':
+            ctx.malformed_outcome('program:%s:%s' % (route, type(err).__name__))
+        else:
+            ctx.violation('program-raises:' + route, 'taurex -i par -o out raised %r on a well-formed configuration (%s)'
+                          % (err, route), full)
+        return
+    with h5py.File(out, 'r') as f:
+        ob = {k: np.asarray(f['Observed'][k][...], float) for k in f['Observed']} if 'Observed' in f else None
+        sp = {k: np.asarray(f['Output/Spectra'][k][...], float) for k in f['Output/Spectra']
+              if isinstance(f['Output/Spectra'][k], h5py.Dataset)}
+    nc, ns = sp['native_wngrid'], sp['native_spectrum']
+    scale = float(np.max(np.abs(ns)))
+    inst_tok = '0'
+    if 'instrument_wngrid' in sp:
+        inst_tok = '1 ' + C.LL(np.column_stack([sp['instrument_wngrid'], sp['instrument_spectrum'],
+                                                sp['instrument_noise'], sp['instrument_wnwidth']]).tolist())
+    ctx.bucket('program:class:' + dict(J='bound-to-observation(judged)', U='declared-or-native-grid(recorded)',
+                                       R='stops-on-unchanged-tree').get(cls, cls))
+    # ---- model
+    try:
+        d = ctx.model().call('c17.program', C.N(PROG_BIN_CODE[binning]), obs_tok, inst_tok, C.L(nc), C.L(ns))
+    except C.ModelError:
+        ctx.check_eq('taurex program reaches the output vs Observation.Program.run', True, False, full)
+        return
+    m_obs, m_tag = d.bool(), d.nat()
+    m_bgrid, m_bwidth, m_binned = np.array(d.list()), np.array(d.list()), np.array(d.list())
+    m_own, m_ospec, m_oerr, m_owid = (np.array(d.list()) for _ in range(4))
+    ctx.check_eq('taurex program stores an observation vs Observation.Program.observed', ob is not None, m_obs, full)
+    ctx.check_eq('taurex program writes a binned model (binner is not the native one) vs Observation.Program.binner',
+                 'binned_spectrum' in sp, m_tag != 0, full)
+    if ob is not None and m_obs:
+        tol = 1e-11 if (obs == 'hdf5' or obs == 'self') else REL
+        ctx.check_close('Observed/(10000/wlgrid, spectrum, errorbars) vs Observation.Program.observed',
+                        np.concatenate([10000 / ob['wlgrid'], ob['spectrum'], ob['errorbars']]),
+                        np.concatenate([m_own, m_ospec, m_oerr]), full, rel=tol)
+        ctx.check_close('Observed/binwidths vs Observation.Program.observed.binWidths', ob['binwidths'], m_owid, full,
+                        rel=tol)
+    if m_tag == 2:
+        got = [sp.get('binned_wngrid', np.zeros(0)), sp.get('binned_wnwidth', np.zeros(0)),
+               sp.get('binned_spectrum', np.zeros(0))]
+        ctx.check_close('Output/Spectra/binned_wngrid, binned_wnwidth vs Observation.Program.binner',
+                        np.concatenate(got[:2]), np.concatenate([m_bgrid, m_bwidth]), full,
+                        rel=1e-11 if (obs == 'hdf5' or obs == 'self') else REL)
+        if np.all(np.isfinite(m_binned)):
+            ctx.check_close('Output/Spectra/binned_spectrum vs Observation.Program.binModel', got[2], m_binned, full,
+                            rel=1e-10, abs_=1e-12 * scale)
+    if cls != 'J':
+        return
+    # ---- the property's own relation on the real code: the binned model that is written sits on exactly the centres and
+    #      widths of the observation that is written, and is the model binned with the binner created from that observation
+    key = 'program-binner-not-of-observation:' + ('self' if obs == 'self' else 'file')
+    if ob is None:
+        ctx.violation(key, 'the program stored no observation (%s)' % route, full)
+        return
+    if obs == 'self':
+        from taurex.data.spectrum.taurex import TaurexSpectrum
+        o = TaurexSpectrum(out)                 # the instrument result of the output file, through the public loader
+    elif obs == 'text':
+        from taurex.data.spectrum.observed import ObservedSpectrum
+        o = ObservedSpectrum(obs_file)
+    else:
+        from taurex.data.spectrum.taurex import TaurexSpectrum
+        o = TaurexSpectrum(obs_file)
+    own = 10000 / ob['wlgrid']
+    if not (C.close(own, np.asarray(o.wavenumberGrid, float), rel=1e-11) and
+            C.close(ob['spectrum'], np.asarray(o.spectrum, float), rel=1e-12) and
+            C.close(ob['binwidths'], np.asarray(o.binWidths, float), rel=1e-10)):
+        ctx.violation('program-observation-not-the-loaded-one:' + ('self' if obs == 'self' else 'file'),
+                      'the observation the program stores is not the observation its source loads to (%s)' % route, full,
+                      dict(stored_wn=own, loaded_wn=o.wavenumberGrid))
+        return
+    missing = [k for k in ('binned_wngrid', 'binned_wnwidth', 'binned_spectrum') if k not in sp]
+    if missing:
+        ctx.violation(key, 'the program wrote no forward model binned onto the %d observed values (%s; the output spectra '
+                      'hold only %s): its binner was not created from the observation' % (len(own), route, sorted(sp)),
+                      full, dict(observed_wn=own))
+        return
+    if sp['binned_wngrid'].shape != own.shape or not C.close(sp['binned_wngrid'], own, rel=1e-12) or \
+            not C.close(sp['binned_wnwidth'], ob['binwidths'], rel=1e-10):
+        ctx.violation(key, 'the binned forward model the program writes is not on the centres and widths of the '
+                      'observation it writes (%s): not aligned element by element with the observed values' % route, full,
+                      dict(binned_wngrid=sp['binned_wngrid'], observed_wn=own, binned_wnwidth=sp['binned_wnwidth'],
+                           observed_widths=ob['binwidths']))
+        return
+    ref = np.asarray(o.create_binner().bin_model((nc, ns, None, None))[1], float)
+    fin = np.isfinite(ref)
+    if not C.close(sp['binned_spectrum'][fin], ref[fin], rel=1e-9, abs_=1e-12 * scale):
+        ctx.violation(key, 'the binned forward model the program writes is not the model binned with the binner created '
+                      'from the observation (%s)' % route, full, dict(written=sp['binned_spectrum'], expected=ref))
+
+
 def run(ctx):
     rng = ctx.rng
     tmp = tempfile.mkdtemp(prefix='verif_c17_')
@@ -502,6 +828,8 @@ def run(ctx):
             eval_case(ctx, gen_case(rng, k), tmp)
         for k in range(ctx.n(240, 4000)):
             eval_holder_case(ctx, gen_holder_case(rng, k), tmp)
+        for k in range(ctx.n(144, 1800)):
+            eval_program_case(ctx, gen_program_case(rng, k), tmp)
         # malformed stream: outside the quantifier, recorded only
         from taurex.data.spectrum.array import ArraySpectrum
         for k in range(ctx.n(12, 60)):
@@ -539,6 +867,7 @@ def search(ctx):
             eval_case(ctx, gen_case(ctx.rng, k), tmp)
             if k % 8 == 0:
                 eval_holder_case(ctx, gen_holder_case(ctx.rng, k // 8), tmp)
+                eval_program_case(ctx, gen_program_case(ctx.rng, k // 8), tmp)
             if ctx.violations:
                 return
     finally:
@@ -551,5 +880,8 @@ def replay(ctx, case):
     if case.get('stream') == 'holder':
         case = {k: v for k, v in case.items() if k != 'step'}
         eval_holder_case(ctx, case)
+        return
+    if case.get('stream') == 'program':
+        eval_program_case(ctx, case)
         return
     eval_case(ctx, case)
